@@ -50,11 +50,26 @@ fn main() {
         drop(s);
         // the argument must still be intact and usable
         assert_eq!(v16.len(), n);
+        // the same values with spare capacity / truncated from a longer vector: identical bytes, no read past len
+        let mut c16: Vec<u16> = Vec::with_capacity(2 * n + 7);
+        c16.extend_from_slice(&v16);
+        assert_eq!(c16.get_sig(), want, "Vec<u16> with spare capacity");
+        let mut t16 = v16.clone();
+        for _ in 0..(n / 2 + 3) { t16.push(0xABCD); }
+        t16.truncate(n);
+        assert_eq!(t16.get_sig(), want, "Vec<u16> truncated");
         let v32: Vec<u32> = (0..n).map(|i| (i as u32).wrapping_mul(0x01010101).wrapping_add(5)).collect();
         let s = v32.get_sig();
         let want: Vec<u8> = v32.iter().flat_map(|x| x.to_ne_bytes()).collect();
         assert_eq!(s, want, "Vec<u32> bytes");
         drop(s);
+        let mut c32: Vec<u32> = Vec::with_capacity(2 * n + 7);
+        c32.extend_from_slice(&v32);
+        assert_eq!(c32.get_sig(), want, "Vec<u32> with spare capacity");
+        let mut t32 = v32.clone();
+        for _ in 0..(n / 2 + 3) { t32.push(0xABCD_EF01); }
+        t32.truncate(n);
+        assert_eq!(t32.get_sig(), want, "Vec<u32> truncated");
         assert_eq!(v32.len(), n);
         total += n;
     }
